@@ -575,7 +575,7 @@ def units(tier):
         Unit('directed', 'enum', shards=16, gen=gen_directed),
         Unit('histories', 'hyp', shards=16, examples={'quick': 250, 'thorough': 14000},
              strategy=strat_history),
-        Unit('histories-known-region', 'hyp', shards=4, examples={'quick': 40, 'thorough': 1500},
+        Unit('histories-known-region', 'hyp', shards=2, examples={'quick': 80, 'thorough': 3000},
              strategy=lambda: strat_history(True)),
     ]
 
